@@ -15,7 +15,7 @@ import (
 )
 
 func init() {
-	props["C17"] = &propRunner{gen: genC17, rule: "request targets = hostile prefix (mix of / \\ %2f %5c TAB CR LF other controls) + host-like segment (+ /.. to reach a directory for static) +- trailing slash +- query, through AddTrailingSlash / RemoveTrailingSlash (redirect mode) / Echo.Static / Group.Static; non-trivial = a redirect was produced and the decoded path has a slash, backslash or TAB/CR/LF within its first 3 bytes after the leading '/'; distinct by (component, decoded path, query)"}
+	props["C17"] = &propRunner{gen: genC17, rule: "request targets = hostile prefix (mix of / \\ %2f %5c TAB CR LF other controls) + host-like segment (+ /.. to reach a directory for static) +- trailing slash +- query, through AddTrailingSlash / RemoveTrailingSlash (redirect mode, and forwarding mode with the default constructors) / Echo.Static / Group.Static; non-trivial = a redirect was produced and the decoded path has a slash, backslash or TAB/CR/LF within its first 3 bytes after the leading '/'; distinct by (component, decoded path, query)"}
 }
 
 // how a browser reads a Location value (WHATWG URL parsing): strip leading/trailing C0 control or
@@ -47,7 +47,11 @@ func genC17(rng *rand.Rand, n int, emit func(Case), dist map[string]int) {
 	os.WriteFile(filepath.Join(root, "index.html"), []byte("root index"), 0o644)
 	os.WriteFile(filepath.Join(root, "sub", "f.txt"), []byte("file"), 0o644)
 
-	ok200 := func(c echo.Context) error { return c.String(200, "ok") }
+	var seenPath, seenURI string
+	ok200 := func(c echo.Context) error {
+		seenPath, seenURI = c.Request().URL.Path, c.Request().RequestURI
+		return c.String(200, "ok")
+	}
 	mk := func(comp int, code int) *echo.Echo {
 		e := echo.New()
 		switch comp {
@@ -56,6 +60,12 @@ func genC17(rng *rand.Rand, n int, emit func(Case), dist map[string]int) {
 			e.Any("/*", ok200)
 		case 1:
 			e.Pre(middleware.RemoveTrailingSlashWithConfig(middleware.TrailingSlashConfig{RedirectCode: code}))
+			e.Any("/*", ok200)
+		case 4: // forwarding (no redirect code), default constructors
+			e.Pre(middleware.AddTrailingSlash())
+			e.Any("/*", ok200)
+		case 5:
+			e.Pre(middleware.RemoveTrailingSlash())
 			e.Any("/*", ok200)
 		case 2:
 			e.Static("/", root)
@@ -72,6 +82,9 @@ func genC17(rng *rand.Rand, n int, emit func(Case), dist map[string]int) {
 	queries := []string{"", "", "a=b", "next=//evil.com", "x=%09", "?", "a=b&c=d", "\\"}
 	for it := 0; it < n; it++ {
 		comp := rng.Intn(4)
+		if rng.Intn(6) == 0 {
+			comp = 4 + rng.Intn(2)
+		}
 		code := codes[rng.Intn(len(codes))]
 		if comp >= 2 {
 			code = 301
@@ -93,7 +106,7 @@ func genC17(rng *rand.Rand, n int, emit func(Case), dist map[string]int) {
 		}
 		h := hosts[rng.Intn(len(hosts))]
 		sb.WriteString(h)
-		if comp >= 2 || rng.Intn(4) == 0 {
+		if comp == 2 || comp == 3 || rng.Intn(4) == 0 {
 			// climb back so that the cleaned name is a directory
 			for k := rng.Intn(5); k > 0; k-- {
 				sb.WriteString("/..")
@@ -145,6 +158,8 @@ func genC17(rng *rand.Rand, n int, emit func(Case), dist map[string]int) {
 		path := req.URL.Path
 		rq := req.URL.RawQuery
 		rec := httptest.NewRecorder()
+		origURI := req.RequestURI
+		seenPath, seenURI = "<handler did not run>", ""
 		func() {
 			defer func() {
 				if r := recover(); r != nil {
@@ -153,6 +168,32 @@ func genC17(rng *rand.Rand, n int, emit func(Case), dist map[string]int) {
 			}()
 			e.ServeHTTP(rec, req)
 		}()
+		if comp >= 4 {
+			// forwarding: the handler (and the router before it) sees the path with the slash added / removed, the query untouched
+			want := path
+			if comp == 4 && !strings.HasSuffix(path, "/") {
+				want = path + "/"
+			}
+			if comp == 5 && len(path) > 1 && strings.HasSuffix(path, "/") {
+				want = path[:len(path)-1]
+			}
+			ok, why := true, ""
+			if rec.Code != 200 || seenPath != want {
+				ok, why = false, fmt.Sprintf("forwarding: request path %q reached the handler as %q (status %d), expected %q", path, seenPath, rec.Code, want)
+			} else if req.URL.RawQuery != rq {
+				ok, why = false, fmt.Sprintf("forwarding changed the query from %q to %q", rq, req.URL.RawQuery)
+			}
+			modified := seenPath != path
+			uri := ""
+			if modified || seenURI != origURI {
+				uri = seenURI
+			}
+			emit(Case{In: L(I(comp), S(path), S(rq), B(false)), Out: L(I(2), S(seenPath), B(modified), S(uri)), Ok: ok, Why: why,
+				Key:   fmt.Sprintf("fwd|%d|%s|%s", comp, path, rq),
+				Human: fmt.Sprintf("component=%d (forwarding) path=%q query=%q -> handler saw path=%q RequestURI=%q status=%d", comp, path, rq, seenPath, seenURI, rec.Code)})
+			dist[fmt.Sprintf("component_%d", comp)]++
+			continue
+		}
 		loc := rec.Header().Get("Location")
 		redirected := rec.Code >= 300 && rec.Code <= 308 && len(rec.Header()["Location"]) > 0
 		ok, why := true, ""
@@ -178,7 +219,7 @@ func genC17(rng *rand.Rand, n int, emit func(Case), dist map[string]int) {
 				}
 			}
 		}
-		isdir := redirected && comp >= 2
+		isdir := redirected && (comp == 2 || comp == 3)
 		out := L(I(0), S(""))
 		if redirected {
 			out = L(I(1), S(loc))
